@@ -78,12 +78,21 @@ class C09(Base):
                 style += "+for"
             slots.append((cfg, k, style))
         faults = {"obs": rng.choice((0.15, 0.3, 0.5)), "obs_before": 0.7}
+        if rng.random() < 0.15:
+            # finalize() calls that must be rejected (and, being rejected,
+            # change nothing): everything the property says still holds
+            faults["badfin"] = rng.choice((0.05, 0.15))
         kinds = ("is_exhausted",) * 4 + ("is_running",) * 3 + OBS_KINDS
         return Plan(slots, faults=faults, interleave=nslots > 1, overrun=3,
                     conclude_obs=2, obs_kinds=kinds)
 
     def check(self, w):
         for s in w.all_slots():
+            if s.how == "raise":
+                exc, msg, at = s.raise_exc
+                self.own(w, f"aborted:{exc}", s,
+                         f"next() raised {exc}({msg!r}) after {at} actions: "
+                         f"the schedule did not conclude")
             if s.how in ("construct_failed", "raise", "no_conclusion"):
                 continue
             m = s.machine
